@@ -206,6 +206,18 @@ CLAIMS['C21'] = {
     'technique': 'Lean 4 termination theorem over the interleaving semantics + freeze experiments under the deterministic scheduler',
 }
 
+CLAIMS['C18'] = {
+    'text': ('Theorems history_accesses_in_bounds / row_in_buffer / entry_in_buffer / tree_in_buffer / slot_in_buffer / sizes_zero: in the model an '
+             'out-of-bounds index is the panic outcome "index out of bounds"; for every sequential history of valid-parameter calls after Trees::new '
+             'no access of get/put/drain/change_tree/stats leaves the typed arrays, and every logical index inside them lies with its full width '
+             'inside the byte buffer of exactly the size metadata_size requests (incl. empty buffers for empty configurations).' + PART +
+             'undefined behaviour of the Rust abstract machine (narrow-atomic punning of bitfield rows, non_atomic table fills, aligned_buf, pointer '
+             'arithmetic of overlap, data races) cannot be expressed in the model; it is explored at run time only: all metadata buffers of all '
+             'correspondence runs are exactly sized and end in front of a guard page. No sanitizer/Miri run is part of this technique.'),
+    'note': TB + ' Depends on the C23 theorem (bv_decide axioms) through C09.',
+    'technique': 'Lean 4 theorems (in-bounds accesses for all histories + buffer layout arithmetic) + guard-paged exactly-sized metadata buffers in every correspondence run',
+}
+
 _PENDING = 'claimed by DESIGN.md; theorem module not yet landed in this revision (work in progress, see DESIGN.md §10 staging)'
 NOT_APPLICABLE = {
     'C22': ('the C implementation is not in this tree (llc/ is an empty `update = none` submodule, no network); '
